@@ -33,10 +33,14 @@ def gen_case(seed):
         # one quantity converted again and again: the same variable three or four times, or the lineage
         # x -> x_converted -> x_converted_converted ... (each conversion creates a variable with index nv, nv+1, ...)
         v = rng.randrange(nv)
+        if rng.random() < 0.6:
+            # states and time: their conversions create helper variables (x_orig_deriv ...) whose names must stay unique
+            v = rng.choice([i for i, x in enumerate(spec['vars']) if x['kind'] in ('state', 'time')])
         n = rng.randint(3, 4)
         us = rng.sample(range(6), n)
         if rng.random() < 0.5:
-            convs = [[v, us[i], rng.random() < 0.4, rng.random() < 0.7] for i in range(n)]
+            inp = rng.random() < 0.6
+            convs = [[v, us[i], inp or rng.random() < 0.4, rng.random() < 0.7] for i in range(n)]
         else:
             convs = [[v if i == 0 else nv + i - 1, us[i], rng.random() < 0.5, rng.random() < 0.7] for i in range(n)]
     return {'seed': seed, 'spec': spec, 'convs': convs}
